@@ -329,6 +329,52 @@ def line_number_rule(P, chk):
     chk.require(ok, R_LINE, "compute_line_number|1 + newlines before pos", b.loc(), detail, "1 + prefix.iter().filter(|x| **x == b'\\n').count()")
 
 
+PASS_THROUGH = {"read_to_string", "read", "from_utf8", "from_utf8_lossy", "clone", "get", "ok_or", "ok_or_else", "and_then", "map_err",
+                "branch", "from_residual", "deref", "as_ref", "borrow", "to_vec", "into", "from", "cloned", "into_owned"}
+
+
+def text_rule(P, chk):
+    """the text handed to the parser is the file's text, unedited (line numbers are counted in it)"""
+    impls = [b for b in P.bodies.values() if b.impl_trait == "okane_core::load::FileSystem" and b.key.endswith("::file_content_utf8") and q.not_test(b)]
+    chk.floor("FileSystem::file_content_utf8 implementations", len(impls), 2)
+    for b in sorted(impls, key=lambda x: x.key):
+        bodies = P.with_closures(b.key)
+        edits = []
+        for x in bodies:
+            chk.analysed(x)
+            if "String" not in x.local_ty(0):
+                continue   # a closure producing the error value, not the text
+            # every value that can be returned as Ok(..)
+            ops = [{"l": 0, "p": []}]
+            for o in ops:
+                for cn, r in q.chains(x, o):
+                    for n in cn:
+                        if short(n) not in PASS_THROUGH and not n.startswith("std::result::Result::") and not n.startswith("std::option::Option::"):
+                            edits.append("%s (%s)" % (short(n), x.loc()))
+                    if r.kind == "call" and short(r.name) not in PASS_THROUGH and r.name not in ("std::result::Result::Ok",):
+                        if not r.name.startswith(("std::result::Result::", "std::option::Option::", "std::fs::", "std::string::String::from_utf8", "std::collections::HashMap::get")):
+                            edits.append("%s (%s)" % (short(r.name), x.loc()))
+            for bb, v, rv in q.ok_err_assignments(x):
+                if v == "Ok":
+                    for cn, r in q.chains(x, rv["fields"][0]["op"]):
+                        for n in cn:
+                            if short(n) not in PASS_THROUGH:
+                                edits.append("%s (%s)" % (short(n), x.loc(bb)))
+        chk.require(not edits, R_LINE, "%s|returns the file's text unedited" % (b.impl_self or b.key), b.loc(),
+                    "the text is edited on its way to the parser by %s: line numbers are counted in the edited text, not in the file" % sorted(set(edits)),
+                    "read -> (utf-8 decode) -> Ok")
+    li = P.body(LI)
+    pl = [(bb, t) for bb, t in li.calls() if short(callee_def(t)) == "parse_ledger"]
+    ok = len(pl) == 1
+    detail = "expected one parse_ledger call in load_impl"
+    if ok:
+        cs = q.chains(li, pl[0][1]["args"][1], stop=lambda r: r.kind == "call" and r.name.endswith("FileSystem::file_content_utf8"))
+        names = set(short(n) for cn, r in cs for n in cn)
+        ok = bool(cs) and all(r.kind == "call" and r.name.endswith("FileSystem::file_content_utf8") for cn, r in cs) and names <= PASS_THROUGH
+        detail = "parse_ledger input comes through %s from %s" % (sorted(names), sorted(set(mir.show_root(r) for cn, r in cs)))
+    chk.require(ok, R_LINE, "load_impl|the parser reads exactly what the file system returned", li.loc(), detail, "parse_ledger(options, &content)")
+
+
 def span_rules(P, chk):
     # BookKeepError spans come from the posting / exchange in hand
     n = 0
@@ -414,4 +460,5 @@ def run(P, chk, tier):
     chk.rule(R_SPAN, "annotation spans come from the failing posting and are clipped against the entry's own span")
     file_rules(P, chk)
     line_rules(P, chk)
+    text_rule(P, chk)
     span_rules(P, chk)
